@@ -200,6 +200,9 @@ class Program:
         raise Unmodelled('ambiguous callee %s: %s' % (text, [b.name for b in out][:4]))
 
     def find_closure(self, ty_text):
+        if '\x00' in ty_text:
+            b = self.bodies.get(ty_text.split('\x00', 1)[1])
+            return [b] if b is not None else None
         c = self.closure_by_type.get(_closure_key(ty_text))
         if not c:
             return None
@@ -755,7 +758,7 @@ class Interp:
         if c.startswith("'"):
             return self.mk_int(ord(_unescape(c[1:-1])), 'char')
         if c.startswith('ZeroSized: '):
-            return self.zst(c[11:])
+            return self.zst(c[11:], fr)
         if c.startswith('fnitem '):
             return FnItem(c[7:])
         if c.startswith('{alloc'):
@@ -770,10 +773,10 @@ class Interp:
             return Opaque('float:' + c, ident='float:' + c)
         return self.named_const(st, fr, c)
 
-    def zst(self, ty):
+    def zst(self, ty, fr=None):
         ty = ty.strip()
         if ty.startswith('{closure@') or ty.startswith('{coroutine@'):
-            return Agg(ty, ())
+            return Agg(self.closure_ty(fr, ty) if ty.startswith('{closure@') else ty, ())
         if ty.startswith('fn(') or ty.startswith('for<'):
             # fn item type: `fn(A) -> B {path}`
             j = ty.rfind('{')
@@ -843,12 +846,18 @@ class Interp:
         for b in self.prog.by_last.get(segs[-1], []):
             if b.kind in ('const',):
                 bsegs = Program._segments(strip_generics(b.name.split('~')[0]))
-                if _suffix(bsegs, segs) or _suffix(segs, bsegs):
-                    cands.append(b)
-                else:
-                    info = self.prog.impl_of.get(b.name)
-                    if info and len(segs) >= 2 and info['self_ty'] == _last_seg(segs[-2]):
+                info = self.prog.impl_of.get(b.name)
+                if info:
+                    k = len(bsegs) - 1
+                    while k >= 0 and not bsegs[k].startswith('<impl at'):
+                        k -= 1
+                    tail = bsegs[k + 1:]
+                    if segs[-len(tail):] == tail and len(segs) > len(tail) and _last_seg(segs[-len(tail) - 1]) == info['self_ty']:
                         cands.append(b)
+                elif _suffix(bsegs, segs) or _suffix(segs, bsegs):
+                    cands.append(b)
+        if len({b.name.split('~')[0] for b in cands}) > 1:
+            raise Unmodelled('ambiguous constant %s: %s' % (c, [b.name for b in cands][:3]))
         if len(cands) >= 1:
             return self.eval_const_body(st, cands[0])
         raise Unmodelled('constant ' + c)
@@ -980,12 +989,25 @@ class Interp:
                     suffix = fr.body.name[len(fr.body.name.split('~')[0]):]
                     b = self.prog.bodies.get(nm + suffix) or self.prog.bodies.get(nm)
                     cands = [b] if b is not None else []
+                if cands and len(cands) > 1:
+                    own = [b for b in cands if b.name.startswith(fr.body.name.split('~')[0] + '::{closure#')]
+                    cands = own or cands
                 defname = cands[0].name if cands else path
                 return Coro(defname, 0, vals)
-            return Agg(path, vals)
+            return Agg(self.closure_ty(fr, path), vals)
         canon = strip_generics(path)
         segs = Program._segments(canon)
         last = segs[-1]
+        if len(segs) >= 3 and segs[-2] == 'Out' and segs[-3] == '__tokio_select_util':
+            # enum generated by tokio::select!: Out<_0, .., _{n-1}> { _0(_0), .., Disabled }
+            vals = [self.operand(st, fr, o) for o in items] if form == 'tuple' else []
+            if last == 'Disabled':
+                m = re.search(r'Out::<(.*)>::Disabled$', path)
+                from models_std import split_top_types
+                d = len(split_top_types(m.group(1))) if m else None
+            else:
+                d = int(last[1:])
+            return Enum('Out', last, d, vals)
         if form == 'named':
             vals_by_name = [(n, self.operand(st, fr, o)) for (n, o) in items]
         else:
@@ -1010,6 +1032,19 @@ class Interp:
             # std struct literal with named fields: keep MIR order (declaration order is what rustc prints)
             return Agg(last, [v for _, v in vals_by_name])
         return Agg(last, [v for _, v in vals_by_name])
+
+    def closure_ty(self, fr, path):
+        """closures created by macros share one source span: disambiguate by the creating body (closure bodies are named
+        `<creator>::{closure#N}`)"""
+        cands = self.prog.closure_by_type.get(_closure_key(path)) or []
+        if len(cands) > 1 and fr is not None:
+            base = fr.body.name.split('~')[0]
+            own = [b for b in cands if b.name.split('~')[0].startswith(base + '::{closure#') and '::{closure#' not in b.name.split('~')[0][len(base) + 2 + len('{closure#'):]]
+            if len(own) == 1:
+                return path + '\x00' + own[0].name
+            if len(own) > 1:
+                raise Unmodelled('ambiguous closure %s created in %s' % (path[-60:], base))
+        return path
 
     def _order_fields(self, enum_ty, variant, vals_by_name):
         d = self.prog.crate.enum(_last_seg(enum_ty))
